@@ -130,6 +130,15 @@ CLAIMED = {
              "crtend EXCLUDE_FILE clauses are outside the model. Entries are read back between __X_array_start/__X_array_end and, separately, inside sh_size (what DT_X_ARRAYSZ covers).",
         technique="Coq proof (stable insertion sort = bucket concatenation, induction over lists and ranges) + model/implementation and spec/GNU-ld correspondence on generated links",
         design_ref="DESIGN.md §3 C30"),
+    "C33": dict(
+        text="S1: Gallina models of wild's --wrap handling (apply_wrapped_symbol_overrides: a sequential rewrite of the global name table over the --wrap list) and of GNU ld's rule (a one-step "
+             "renaming applied to undefined references). Theorems: closed form of wild's table for every duplicate-free list of wrapped base names; for every name table in which each wrapped S "
+             "has a __wrap_S (and no stray __real_S when S is undefined), every referenced name binds under wild exactly as under GNU ld (S -> __wrap_S, __real_S -> S, all else unchanged); "
+             "references from the defining object are unaffected in both. Three refutation theorems delimit the domain; each is reproduced against wild and GNU ld and recorded.",
+        note="Trusted: the GNU ld side is a specification, validated on every run against ld 2.40 on the generated programs; the tie is behavioural (generated programs are linked by both linkers and "
+             "run; each call site reports which function it reached), with definitions in objects, archive members and a shared library. Symbol versions/LTO are outside the generated inputs.",
+        technique="Coq proof (induction over the --wrap list, closed form of the fold) + model/implementation and spec/GNU-ld correspondence on generated, executed programs",
+        design_ref="DESIGN.md §3 C33"),
     "C37": dict(
         text="S1 on top of C03: DT_NEEDED = the shared libraries in the verified loaded set, in command-line order. Theorems: listed iff loaded shared library; every --no-as-needed library listed; "
              "an --as-needed library listed only if some loaded file non-weakly references a name whose first definition it is; strictly increasing command-line positions (each at most once).",
